@@ -367,6 +367,11 @@ func extProdScenarios(tier string) []engine.Scenario {
 			}
 		}
 	}
+	// 32-bit path near its admission limit (q < 2^29) with many digits: the lazy accumulator sums 2·#digits products
+	q29 := shape{"q29lo", 4, []uint64{nttPrime(4, 1<<29, true, 0)}, shapes(4)[0].p}
+	for _, pw2 := range []int{1, 2, 3, 4, 5} {
+		scs = append(scs, extProdScenario(epConfig{q29, 0, 0, -1, pw2, true}))
+	}
 	// coefficient-domain input ciphertexts (parameters with NTTFlag=false): a few configurations per code path
 	sh := shapes(4)
 	for _, e := range []epConfig{
